@@ -311,7 +311,7 @@ pub fn run_slice(cases: Vec<Case>, driver: &Driver, rule: &str, exhaustive: bool
                 model_replies: model.to_vec(),
             });
         }
-        if report.failures.len() >= 25 {
+        if report.failures.iter().filter(|f| f.kind == "oracle").count() >= 5 || report.failures.len() >= 200 {
             break;
         }
     }
